@@ -80,6 +80,8 @@ Fixpoint merge_changes_aux (chunks : list str) (tag_type : str) (st : option (li
                     match index_of name cc 0 with
                     | Some i => [chunk] ++ merge_changes_aux rest tag_type (Some (skipn (S i) cc))
                     | None =>
+                        if mem_str name Tables.empty_tags then [chunk] ++ merge_changes_aux rest tag_type (Some cc)
+                        else
                         map close_tag_of cc ++ [close_tag_of tag_type; chunk; open_marker tag_type] ++
                         map open_tag_of (rev cc) ++ merge_changes_aux rest tag_type (Some cc)
                     end
@@ -135,6 +137,8 @@ Fixpoint merge_groups_aux (chunks : list str) (tag_type : option str) (st : opti
                     match index_of name cc 0 with
                     | Some i => merge_groups_aux rest tag_type (Some (chunk :: g, skipn (S i) cc))
                     | None =>
+                        if mem_str name Tables.empty_tags then merge_groups_aux rest tag_type (Some (chunk :: g, cc))
+                        else
                         let g' := rev (map open_tag_of (rev cc)) ++ rev open_mark ++ [chunk] ++ rev close_marker ++
                                   rev (map close_tag_of cc) ++ g in
                         merge_groups_aux rest tag_type (Some (g', cc))
